@@ -240,6 +240,69 @@ fn brief(ui: &[UiToken]) -> String {
     ui.iter().map(|u| format!("{:?}({},{})", u.ui_type, u.start, u.end)).collect::<Vec<_>>().join(" ")
 }
 
+// ---- a based literal next to anything --------------------------------------------------------------------
+
+/// `0x…`, `0o…`, `0b…` literals are number literals: whatever stands before or after one - a currency code or sign, a
+/// percent sign, a unit, a word, an operator, a comment - the literal is reported as one Number token covering exactly
+/// its characters
+#[derive(Clone, Debug, Serialize, Deserialize)]
+pub struct BasedCtx {
+    pub lit: crate::c13::Src,
+    pub before: u8,
+    pub after: u8,
+    /// blanks between the literal and what follows (0 = glued where the follower is not alphanumeric)
+    pub gap: u8,
+}
+
+pub const BEFORE: [&str; 8] = ["", "", "", "5 +", "şğü", "x =", "10 usd +", "("];
+pub const AFTER: [&str; 22] = ["", "usd", "try", "eur", "€", "$", "₺", "%", "kg", "km", "mb", "pm", "EST", "to hex", "+ 1", "* 0b11", "# c", "日本", "hours", "to decimal", ")", "usd + 0o17 eur"];
+
+pub struct BasedInContext;
+
+impl Prop for BasedInContext {
+    type Case = BasedCtx;
+    fn name(&self) -> &'static str {
+        "based-literal-in-context"
+    }
+    fn check(&self, w: &mut Worker, c: &BasedCtx) -> Verdict {
+        let before = BEFORE[c.before as usize % BEFORE.len()];
+        let after = AFTER[c.after as usize % AFTER.len()];
+        let lit = c.lit.text();
+        let glue_ok = after.chars().next().map_or(true, |ch| !ch.is_alphanumeric());
+        let gap = if glue_ok { c.gap % 3 } else { 1 + c.gap % 2 };
+        let mut line = String::new();
+        if !before.is_empty() {
+            line.push_str(before);
+            line.push(' ');
+        }
+        let start = line.chars().count();
+        line.push_str(&lit);
+        let end = line.chars().count();
+        if !after.is_empty() {
+            line.push_str(&" ".repeat(gap as usize));
+            line.push_str(after);
+        }
+        // an unbalanced parenthesis is closed / opened so that the line still evaluates where it can
+        let rendered = format!("{:?}", line);
+        let out = match w.eval(&Cfg::default(), "en", &line) {
+            Ok(o) => o,
+            Err(p) => return Verdict::fail(format!("panic at {}: {}", p.site, p.message), rendered),
+        };
+        let ui: Vec<UiToken> = out.ui.last().cloned().unwrap_or_default();
+        let mut acc = Acc::new();
+        if let Err(e) = check_valid(&ui, &line) {
+            acc.fail(e);
+        } else if !ui.iter().any(|u| u.ui_type == UiTokenType::Number && (u.start, u.end) == (start, end)) {
+            acc.fail(format!("the literal {:?} at characters ({}, {}) is not reported as one Number token with exactly that span; tokens: {}", lit, start, end, brief(&ui)));
+        }
+        acc.finish(rendered).nt(!after.is_empty() || !before.is_empty()).class("based-literal-in-context").class_if(gap == 0 && !after.is_empty(), "follower-glued")
+    }
+}
+
+pub fn based_ctx_strategy() -> impl Strategy<Value = BasedCtx> {
+    (crate::c13::src_strategy(false).prop_filter("based", |s| s.base != 10), 0u8..8, 0u8..22, 0u8..6).prop_map(|(lit, before, after, gap)| BasedCtx { lit: crate::c13::Src { pad: lit.pad % 9, ..lit }, before, after, gap })
+}
+
 pub fn case_strategy() -> impl Strategy<Value = Case> {
     let comment = prop_oneof![2 => crate::c16::comment_strategy(), 1 => prop::sample::select(WORDS.to_vec()).prop_map(|s| format!(" {} 5 + 3", s))];
     let structured = (any_line(), prop::collection::vec((any::<u8>(), any::<u8>()), 0..4), prop::option::weighted(0.4, comment), prop::collection::vec(prop_oneof![6 => Just(0u8), 2 => 1u8..3], 0..20)).prop_map(|(g, ins, cm, extra)| Case { input: Input::Structured(g, ins, cm, extra), seps: 0 });
@@ -269,6 +332,7 @@ pub fn run(ctx: &Ctx) {
     ctx.run_generated(&Spans, ctx.tier.pick(150_000, 1_500_000), case_strategy);
     // lines with unit quantities of user-defined families (unit word after or before the value)
     ctx.run_generated(&crate::custom_units::CustomUnits, ctx.tier.pick(300, 5_000), || crate::custom_units::case_strategy("C17"));
+    ctx.run_generated(&BasedInContext, ctx.tier.pick(20_000, 200_000), based_ctx_strategy);
     if ctx.tier == crate::engine::Tier::Thorough {
         crate::fuzzdec::campaign(ctx, "C17", "c17_spans");
     }
@@ -278,6 +342,7 @@ pub fn replay(w: &mut Worker, sub: &str, case: &serde_json::Value) -> Option<Ver
     match sub {
         "spans" => crate::engine::replay_case(&Spans, w, case),
         "custom-units" => crate::custom_units::replay(w, case),
+        "based-literal-in-context" => crate::engine::replay_case(&BasedInContext, w, case),
         _ => None,
     }
 }
